@@ -457,6 +457,7 @@ pub struct Local<'c> {
     ctx: &'c Ctx,
     sub_name: &'static str,
     evals: u64,
+    nsample: u64,
     nt: HashSet<u64>,
     nt_constr: u64,
     labels: BTreeMap<&'static str, u64>,
@@ -472,6 +473,7 @@ impl<'c> Local<'c> {
             ctx,
             sub_name,
             evals: 0,
+            nsample: 0,
             nt: HashSet::new(),
             nt_constr: 0,
             labels: BTreeMap::new(),
@@ -492,7 +494,10 @@ impl<'c> Local<'c> {
         };
         crate::crash::clear_current();
         if self.counting {
-            self.evals += 1;
+            // one evaluation per oracle comparison: a case that checks k distinct (input, variant) pairs
+            // (paths, target types, writers) counts k executions, so evaluations >= distinct_nontrivial
+            self.nsample += 1;
+            self.evals += (obs.extra_nontrivial.len() as u64 + obs.nontrivial as u64).max(1);
             let any_nt = obs.nontrivial || !obs.extra_nontrivial.is_empty();
             if self.distinct_by_construction {
                 if obs.nontrivial {
@@ -511,7 +516,7 @@ impl<'c> Local<'c> {
             for l in &obs.labels {
                 *self.labels.entry(l).or_insert(0) += 1;
             }
-            if any_nt && self.samples.len() < 3 && (self.evals % 7 == 1 || self.samples.is_empty()) {
+            if any_nt && self.samples.len() < 3 && (self.nsample % 7 == 1 || self.samples.is_empty()) {
                 let s = obs.render.clone().unwrap_or_else(|| show_bytes(case, 200));
                 self.samples.push(format!("{}: {}", sub.name, crate::refjson::trunc(&s, 300)));
             }
